@@ -13,7 +13,7 @@ import re
 import struct
 import sys
 
-ALLOWED = set("abcdefghijklmnopqrstuvwxyzABCDEFGHIJKLMNOPQRSTUVWXYZ0123456789/;[()<>:.$_-+*=,!?@#%&|^~{} ")
+ALLOWED = set("abcdefghijklmnopqrstuvwxyzABCDEFGHIJKLMNOPQRSTUVWXYZ0123456789/;[()<>:.$_-+*=,!@#%&|^~{} ")
 
 
 def norm(s):
@@ -124,7 +124,7 @@ while i < len(lines):
         cur = None
         while i < len(lines):
             m = re.match(r"^\s+(\d+): #(\d+) ", lines[i])
-            a = re.match(r"^\s+#(\d+) ", lines[i])
+            a = re.match(r"^\s+#(\d+)(\s|$)", lines[i])
             if m:
                 cur = int(m.group(1))
                 bsm[cur] = (int(m.group(2)), [])
@@ -241,8 +241,7 @@ def parse_member(block):
             res.append("  signature %s" % utf8(int(m.group(1))))
         if s == "Exceptions:" and l.startswith("    Exceptions"):
             t = block[i + 1].strip()
-            assert t.startswith("throws ")
-            names = [x.strip().replace(".", "/") for x in t[7:].split(",")]
+            names = [x.strip().replace(".", "/") for x in t[7:].split(",")] if t.startswith("throws ") else []
             res.append("  throws %s" % " ".join(norm(n) for n in names))
         if s == "Code:" and l.startswith("    Code"):
             j = i + 1
